@@ -40,4 +40,72 @@ IndexConstraint == IndexAssumption
 NoViewOnFreeSlot ==
     \A a \in Apps : pc[a] = "view" => st[cand[a]] = RxProcessing
 
+\* ---------------------------------------------------------------------------
+\* Trap properties: state predicates that mark a branch of the protocol worth exercising on the
+\* implementation.  Checking "NotTrap_X" as an invariant makes TLC produce a shortest schedule that
+\* reaches the branch; the schedule is replayed on the real loop, drained, and judged by the monitor.
+
+\* the receive search meets a slot with the right index that is not awaiting a response, while a later
+\* slot genuinely awaits the frame (zeroed storage, stale index words)
+Trap_ScanSkipsUnsent ==
+    rxpc = "rx_scan_st" /\ st[rxScan] # Sent /\ \E t \in Slots : t > rxScan /\ Awaiting(t)
+
+\* the response is already there when the deadline is examined
+Trap_ResponseAtDeadlineLast ==
+    \E a \in Apps : pc[a] = "timer_poll" /\ timer[a] = "fired" /\ yielded[a] /\ retries[a] = 0
+                      /\ st[cand[a]] = RxDone
+Trap_ResponseAtDeadlineRetry ==
+    \E a \in Apps : pc[a] = "timer_poll" /\ timer[a] = "fired" /\ yielded[a] /\ retries[a] > 0
+                      /\ st[cand[a]] = RxDone
+
+\* the transmit / receive side finishes after the request was given up
+Trap_TxMarkAfterRelease == txpc = "tx_mark" /\ st[txClaim] # Sending
+Trap_TxUnclaimAfterRelease == txpc = "tx_unclaim" /\ st[txClaim] # Sending
+Trap_RxMarkAfterRelease == rxpc = "rx_mark" /\ st[rxMatch] # RxBusy
+Trap_RxClaimFails == rxpc = "rx_claim" /\ st[rxMatch] # Sent
+
+\* somebody tries to claim a slot whose previous owner is still finishing with it
+Trap_ClaimWhileViewHeld ==
+    \E a, b \in Apps : a # b /\ pc[a] = "view" /\ pc[b] = "alloc_claim" /\ cand[b] = cand[a]
+Trap_ClaimDuringRelease ==
+    \E a, b \in Apps : a # b /\ pc[a] \in {"rf_swap", "rf_fp"} /\ pc[b] = "alloc_claim" /\ cand[b] = cand[a]
+
+\* the response arrives before the caller polled for the first time
+Trap_WakeBeforeFirstPoll == rxpc = "rx_wake" /\ wk[rxMatch] = NoApp
+
+\* allocation wraps round onto busy slots / fails
+Trap_AllocRetry == \E a \in Apps : pc[a] = "alloc_claim" /\ attempts[a] >= 1 /\ st[cand[a]] # None
+Trap_AllocFail == \E a \in Apps : result[a] = "allocfail"
+
+\* a retry finds the frame not in Sent
+Trap_RetryCasFails == \E a \in Apps : pc[a] = "retry_set" /\ st[cand[a]] # Sent
+
+\* the awaiting future is dropped / the last deadline passes in a given slot state
+Trap_AbandonIn(s) == \E a \in Apps : pc[a] = "drop_fut" /\ st[cand[a]] = s
+Trap_ReleaseIn(s) == \E a \in Apps : pc[a] = "release" /\ st[cand[a]] = s
+
+NotTrap_ScanSkipsUnsent == ~Trap_ScanSkipsUnsent
+NotTrap_ResponseAtDeadlineLast == ~Trap_ResponseAtDeadlineLast
+NotTrap_ResponseAtDeadlineRetry == ~Trap_ResponseAtDeadlineRetry
+NotTrap_TxMarkAfterRelease == ~Trap_TxMarkAfterRelease
+NotTrap_TxUnclaimAfterRelease == ~Trap_TxUnclaimAfterRelease
+NotTrap_RxMarkAfterRelease == ~Trap_RxMarkAfterRelease
+NotTrap_RxClaimFails == ~Trap_RxClaimFails
+NotTrap_ClaimWhileViewHeld == ~Trap_ClaimWhileViewHeld
+NotTrap_ClaimDuringRelease == ~Trap_ClaimDuringRelease
+NotTrap_WakeBeforeFirstPoll == ~Trap_WakeBeforeFirstPoll
+NotTrap_AllocRetry == ~Trap_AllocRetry
+NotTrap_AllocFail == ~Trap_AllocFail
+NotTrap_RetryCasFails == ~Trap_RetryCasFails
+NotTrap_AbandonInSendable == ~Trap_AbandonIn(Sendable)
+NotTrap_AbandonInSending == ~Trap_AbandonIn(Sending)
+NotTrap_AbandonInSent == ~Trap_AbandonIn(Sent)
+NotTrap_AbandonInRxBusy == ~Trap_AbandonIn(RxBusy)
+NotTrap_AbandonInRxDone == ~Trap_AbandonIn(RxDone)
+NotTrap_ReleaseInSendable == ~Trap_ReleaseIn(Sendable)
+NotTrap_ReleaseInSending == ~Trap_ReleaseIn(Sending)
+NotTrap_ReleaseInSent == ~Trap_ReleaseIn(Sent)
+NotTrap_ReleaseInRxBusy == ~Trap_ReleaseIn(RxBusy)
+NotTrap_ReleaseInRxDone == ~Trap_ReleaseIn(RxDone)
+
 =============================================================================
